@@ -16,7 +16,8 @@ EXPLANATION = (
     " (f) Everything reachable from handle_query queues answers only through DnsOutgoing::add_answer. (g) A matched cached record always gets reset_ttl(incoming), also for a goodbye."
     " (h) matches() compares like with like."
     " (i) handle_query considers every question (shared with C06l). (j) A known-answer copy that had update_ttl(now) applied is handed to the packet with write time 0: the age is taken off once."
-    " (k) as C06p: a suppressed answer does not hold the others back.")
+    " (k) as C06p: a suppressed answer does not hold the others back."
+    " (l) reset_ttl writes ttl and created on every path, also for a goodbye: the known-answer list never works from the values of a withdrawn announcement.")
 UNDECIDED = ["behaviour at the boundary values on the wire (that is what F12 pins to the formula, no more)",
              "responder handling of multi-packet known-answer lists (TC bit)"]
 
@@ -313,6 +314,7 @@ def run(ctx, P):
     from . import r4
     r4.every_question_considered(ctx, P, "C10i")
     r4.age_subtracted_once(ctx, P, "C10j")
+    r4.goodbye_resets_ttl_and_created(ctx, P, "C10l")
     r4.collected_answers_are_sent(ctx, P, "C10k")   # a suppressed answer does not hold the others back
     clause_e(ctx, P)
     clause_a(ctx, P)
